@@ -227,3 +227,24 @@ def lifecycle(ctx, names, recs=(), clean_slate=True):
         init_base(ctx, n)
     for n in recs:
         recs_table(ctx, n, c01.NONNULL[n])
+    escape(ctx, names)
+
+
+def escape(ctx, names):
+    """What a detector keeps of an observation is a private copy (C15's escape rules for the given classes): statistics that are
+    later recomputed from stored observations (windows, streams, references) must not change when the caller reuses its buffer."""
+    from . import c15
+    c15.validation_fresh(ctx)
+    for cname in names:
+        if cname not in q.PUBLIC_DETECTORS:
+            continue
+        for meth in ("update", "set_reference"):
+            fi = ctx.prog.lookup(ctx.prog.cls(cname), meth)
+            if fi is None or fi.cls.name in q.BASES:
+                continue
+            srcs = {p for p in fi.params()[1:] if p in ("X", "y_true", "y_pred")}
+            for cell in ({"_drift_state": None}, {"_drift_state": "drift"}):
+                if cname == "MD3":
+                    cell = dict(cell, waiting_for_oracle=False)
+                tr = ctx.trace(cname, meth, assume=cell, nonnull=c01.NONNULL.get(cname, ("X",)))
+                c15.sinks(ctx, "%s.%s" % (cname, meth), tr, srcs, injector=False)
